@@ -52,6 +52,8 @@ func (p *ClonePool) Mark(v Value, flags MarkFlags) {
 		return
 	}
 	if !ok {
+		// A pool that no longer exists may have left its finalizer on v.
+		setFinalizer(v, nil)
 		setFinalizer(v, p.goFinalizer)
 	}
 	c.value = v.Clone()
@@ -68,6 +70,14 @@ func (p *ClonePool) Mark(v Value, flags MarkFlags) {
 		c.clearFlag(wrReleased)
 	}
 	p.cloneRegister[k] = c
+}
+
+// Marked returns true if v is marked in this pool.
+func (p *ClonePool) Marked(v Value) bool {
+	p.mx.Lock()
+	defer p.mx.Unlock()
+	_, ok := p.cloneRegister[v.Key()]
+	return ok
 }
 
 // ExtractPendingFinalize returns the set of values which are being garbage
